@@ -452,7 +452,9 @@ CLASSES = {}
 
 def _make_class(cid):
     with_param = (cid % 2 == 0)
-    cls = type('C%d' % cid, (Obj,), {})
+    # class 2 defines __eq__ without __hash__ (as list / dict subclasses and many value classes do): the fallback for a failing printer must not
+    # need its value to be hashable
+    cls = type('C%d' % cid, (Obj,), {'__eq__': (lambda a, b: a is b), '__hash__': None} if cid == 2 else {})
     cls.__module__ = '__main__'
     cls.__qualname__ = 'C%d' % cid
 
@@ -795,6 +797,25 @@ def fail_chunk(cases):
                     bad = 'output is not the fault-free output with value %d replaced by its repr: %s vs %s' % (k, text, want)
                 elif warned != [nodes_cls(spec, k)]:
                     bad = 'warnings name printers %s, expected exactly [%d]' % (warned, nodes_cls(spec, k))
+                if not bad:
+                    # the SAME objects, changed between two calls (their repr now differs), with the same fault: the fallback shows the value as it
+                    # is at the time of this call - nothing about the earlier failure is remembered
+                    for o, _s in nodes:
+                        o.uid += 1000
+                    _state['counter'] = 0
+                    _state['plan'] = dict(plan)
+                    with warnings.catch_warnings():
+                        warnings.simplefilter('ignore')
+                        try:
+                            text2 = pp.pformat(root, width=200)
+                        except Exception as e:
+                            text2 = 'EXC:' + type(e).__name__
+                    _state['plan'] = {}
+                    want2 = re.sub(r'REPR\((\d+)\)', lambda m: 'REPR(%d)' % (int(m.group(1)) + 1000), want)
+                    if text2.replace('\n', ' ').replace(' ', '') != want2.replace(' ', ''):
+                        bad = 'the same objects, changed and printed again with the same fault: %s, expected %s' % (text2[:200], want2[:200])
+                    for o, _s in nodes:
+                        o.uid -= 1000
         if len(faults) == 1 and faults[0][1][0] == 'bad' and faults[0][0] < size(spec) and not bad:
             # "a printer returning neither str nor Doc is reported with ValueError": the naming ValueError either escapes (top level) or
             # shows up in the warning of the enclosing printer that it made fail
